@@ -85,6 +85,36 @@ def run(ctx, repo):
             else:
                 ctx.ok('R2', '%s::%s: %s guarded (%s)' % (rel, q, k[:50], desc))
     ctx.floor('rounding sites in the junior scoring functions', n_sites, 4)
+    # Decimal(<the mark as passed in>): exact for text, but for a float it is the exact value of the BINARY number (Decimal(2.4) is
+    # 2.399999999999999911182158029987...), so a mark on a table threshold falls on the wrong side of it when it is given as a number
+    n_dec = 0
+    for rel_ in sorted({r for r, _q in GRID_FUNCS}):
+        m_ = repo.module(rel_)
+        for q_, f_ in m_.functions.items():
+            if q_.startswith('_'):
+                continue
+            params_ = {a.arg for a in f_.args.args + f_.args.kwonlyargs} - {'self'}
+            rebound_ = {}
+            for n_ in ast.walk(f_):
+                if isinstance(n_, ast.Assign) and len(n_.targets) == 1 and isinstance(n_.targets[0], ast.Name) and n_.targets[0].id in params_:
+                    rebound_.setdefault(n_.targets[0].id, []).append(n_)
+            for c_ in ast.walk(f_):
+                if isinstance(c_, ast.Call) and call_name(c_) in ('Decimal', 'D') and len(c_.args) == 1 and isinstance(c_.args[0], ast.Name) \
+                        and c_.args[0].id in params_:
+                    nm_ = c_.args[0].id
+                    # the parameter was turned into text before (perf = str(perf) / '%s' % perf / repr)?
+                    texted = any(a_.lineno < c_.lineno and isinstance(a_.value, (ast.Call, ast.BinOp, ast.JoinedStr)) and (
+                        (isinstance(a_.value, ast.Call) and call_name(a_.value) in ('str', 'repr', 'format')) or isinstance(a_.value, ast.JoinedStr) or (
+                            isinstance(a_.value, ast.BinOp) and isinstance(a_.value.op, ast.Mod) and isinstance(a_.value.left, ast.Constant)))
+                        for a_ in rebound_.get(nm_, []))
+                    n_dec += 1
+                    if texted:
+                        ctx.ok('R2', '%s::%s: Decimal(%s) of the mark as text' % (rel_, q_, nm_))
+                    else:
+                        ctx.finding('R2', '%s::%s::Decimal of the raw mark' % (rel_, q_), rel_, c_.lineno,
+                                    '%s converts the mark with Decimal(%s) as it was passed in: for a float this is the exact binary value, so a mark on a '
+                                    'threshold (2.4 m) is below it as a number and on it as text - the points depend on the input form'
+                                    % (q_, nm_), "sportshall_score('SLJ', 2.4) vs '2.40'")
     # ---- R3 keys: accepted and in normal form
     D = P.dfa('PAT_EVENT_CODE')
     D_REL = P.dfa('PAT_RELAYS')
